@@ -48,6 +48,9 @@ type Job struct {
 	In    int        `json:"in,omitempty"`  // external inputs (bm kind)
 	Out   int        `json:"out,omitempty"` // external outputs (bm kind)
 	Real  bool       `json:"real,omitempty"` // true: Bondmachine.Write_verilog into the CWD and read back; false: bmgen.RenderFiles
+	// DomainOf[p] = index into Procs of the domain processor p is created from (nil: processor p uses
+	// domain p). Lets processors share a domain or use the domains in another order, as the CLI allows.
+	DomainOf []int `json:"domain_of,omitempty"`
 	HwOpt []string   `json:"hwopt,omitempty"`
 	// hw-optimisation requirement sets (used registers) given to every opcode of processor 0
 	DestRegs, SrcRegs []string `json:",omitempty"`
@@ -172,7 +175,14 @@ func buildBM(j Job) (*bondmachine.Bondmachine, *bondmachine.Config, string, erro
 		}
 		// the shared constraints string is what the tool fills in before ConstraintCheck-relevant use
 		b.Domains = append(b.Domains, m)
-		b.Add_processor(i)
+		if j.DomainOf == nil {
+			b.Add_processor(i)
+		}
+	}
+	for _, d := range j.DomainOf {
+		if _, err := b.Add_processor(d); err != nil {
+			return nil, nil, "", err
+		}
 	}
 	if j.Kind == "proc" {
 		p := j.Procs[0]
@@ -211,7 +221,8 @@ func buildBM(j Job) (*bondmachine.Bondmachine, *bondmachine.Config, string, erro
 		}
 	}
 	// acceptance: Machine.ConstraintCheck with the shared constraints the tool would set
-	for i, m := range b.Domains {
+	for i, dom := range b.Processors {
+		m := b.Domains[dom]
 		var sl []string
 		for _, so := range b.Shared_links[i] {
 			sl = append(sl, b.Shared_objects[so].String())
